@@ -14,7 +14,7 @@ use std::collections::BTreeMap;
 
 /// gap marker inside templates: a place where SAS ignores blanks and comments
 const GAP: char = '~';
-pub const FILLERS: &[&str] = &["", " ", " /*c*/\n"];
+pub const FILLERS: &[&str] = &["", " ", " /*c*/\n", "/*a*//*b*/"];
 
 /// (own type, template with one `{}` hole, hole type)
 /// types: S statement, T macro text, O open-code value, E integer expression operand,
@@ -31,7 +31,7 @@ const CONTEXTS: &[(char, &str, char)] = &[
     ('S', "%do i&j=1 %to 3;~{} %end;", 'S'),
     ('S', "%do %while(~&i<3);~{} %end;", 'S'),
     ('S', "%do %until(&i ge 3);~{} %end;", 'S'),
-    ('S', "%if &a %then %do;~{} %end;", 'S'),
+    ('S', "%if &a %then~%do~;~{} %end;", 'S'),
     ('S', "%if &a=1 %then %do; %end;~%else %do;~{} %end;", 'S'),
     ('S', "data a;~{} run;", 'S'),
     ('S', "%let a~=~{};", 'T'),
@@ -50,14 +50,14 @@ const CONTEXTS: &[(char, &str, char)] = &[
     ('S', "%global {};", 'V'),
     ('T', "%eval~(~{})", 'E'),
     ('T', "%sysevalf(~{})", 'F'),
-    ('T', "%sysevalf({},~ceil)", 'F'),
+    ('T', "%sysevalf({}~,~ceil)", 'F'),
     ('T', "%upcase~(~{})", 'A'),
-    ('T', "%scan(~{},~1)", 'A'),
+    ('T', "%scan(~{},~1~)", 'A'),
     ('T', "%scan(a b,~{})", 'E'),
     ('T', "%scan(a b,~1,~{})", 'A'),
-    ('T', "%substr(abc,~{},~1)", 'E'),
+    ('T', "%substr(abc,~{}~,~1~)", 'E'),
     ('T', "%sysfunc~(~f~(~{}))", 'F'),
-    ('T', "%sysfunc(f(1,~{}),~best.)", 'F'),
+    ('T', "%sysfunc(f(1~,~{})~,~best.~)", 'F'),
     ('T', "%qsysfunc(f({}))", 'F'),
     ('T', "%str({})", 'T'),
     ('T', "%nrstr({})", 'N'),
@@ -970,8 +970,11 @@ fn c14_items(tier: Tier) -> Vec<Deletion> {
                     if name.ends_with("%v") && val == "(1)" {
                         continue; // '(' after a macro call (even after blanks) is its argument list
                     }
+                    // a name expression continues across comments: without a blank, a following
+                    // digit / macro variable / macro call still belongs to the name
                     let glue = matches!(val, "1" | "&v" | "%m(1)");
-                    let sep = if f.is_empty() && glue { " " } else { f };
+                    let spaced = format!(" {f}");
+                    let sep: &str = if glue && !f.contains(char::is_whitespace) { &spaced } else { f };
                     add("let-assign", format!("%let {name}{sep}"), format!("{val};{fo}"), E::MissingExpectedAssign, T::ASSIGN, None, vec![]);
                     add("do-assign", format!("%do {name}{sep}"), format!("{val} %to 3; %end;{fo}"), E::MissingExpectedAssign, T::ASSIGN, None, vec![]);
                     add(
@@ -985,7 +988,15 @@ fn c14_items(tier: Tier) -> Vec<Deletion> {
                     );
                 }
             }
-            add("copy-slash", format!("%copy m{}", if f.is_empty() { " " } else { f }), format!("source;{fo}"), E::MissingExpectedFSlash, T::FSLASH, None, vec![]);
+            add(
+                "copy-slash",
+                format!("%copy m{}", if f.contains(char::is_whitespace) { (*f).to_string() } else { format!(" {f}") }),
+                format!("source;{fo}"),
+                E::MissingExpectedFSlash,
+                T::FSLASH,
+                None,
+                vec![],
+            );
             if !fo.is_empty() && !fo.starts_with(';') {
                 // the ';' after %end, %return, %do %while/%until(...)
                 let allowed_tail = vec![E::MissingExpectedSemiOrEOF];
